@@ -181,6 +181,49 @@ let conc_agrees h blobs (s : st) (a : api) : bool =
       List.for_all (fun b -> same (FBlob (n_of_int b.bid))) blobs
     end
 
+(* concurrency stream, batches run to completion: the observed final directory must be the final
+   directory of SOME schedule of the concurrent model; all interleavings of the extracted
+   scheduler are explored (memoised on the configuration) *)
+let conc_finals h blobs (s : st) (calls : ccall list) : string list =
+  let c0 = start h s calls in
+  let n = List.length calls in
+  let show (c : conf) =
+    let idx = match read_index c.cfs with Some l -> show_index l | None -> "none" in
+    let bl = List.filter (fun b -> exists_file c.cfs (FBlob (n_of_int b.bid))) blobs in
+    "I=" ^ idx ^ ";B=" ^ String.concat "," (List.map (fun b -> string_of_int b.bid) bl) in
+  let key (c : conf) = (show c, Marshal.to_string (c.ctags, c.cdigs, c.clock, c.cthreads) []) in
+  let seen = Hashtbl.create 997 in
+  let finals = Hashtbl.create 17 in
+  let rec go (c : conf) =
+    let k = key c in
+    if not (Hashtbl.mem seen k) then begin
+      Hashtbl.add seen k ();
+      if List.for_all (fun t -> t.tprog = []) c.cthreads then Hashtbl.replace finals (show c) ()
+      else
+        for i = 0 to n - 1 do
+          let c' = sched shuffle c [nat_of_int i] in
+          let len (x : conf) = nat_len (List.nth x.cthreads i).tprog in
+          if len c' < len c then go c'
+        done
+    end in
+  go c0;
+  List.sort compare (Hashtbl.fold (fun k () acc -> k :: acc) finals [])
+
+let parse_conc blobs (sc : string) : ccall list =
+  let parts = String.split_on_char ';' sc in
+  let f = List.fold_left (fun acc x ->
+      if String.length x >= 5 && String.sub x 0 5 = "conc=" then String.sub x 5 (String.length x - 5) else acc) "" parts in
+  let num x = n_of_int (int_of_string x) in
+  List.map (fun it ->
+      match String.split_on_char ':' it with
+      | ["push"; d] ->
+        let b = List.find (fun b -> b.bid = int_of_string d) blobs in
+        CPush (n_of_int b.bid, content_good b.bid b.bchunks, mt_of blobs (n_of_int b.bid))
+      | ["tag"; d; r] -> CTag (num d, num r)
+      | ["untag"; r] -> CUntag (num r)
+      | ["saveindex"] -> CSaveIndex
+      | _ -> failwith "conc call") (List.filter (fun y -> y <> "") (String.split_on_char '|' f))
+
 (* initialisation: final=init; the history (if any) consists of earlier attempts crash:<j>:init *)
 let is_init sc =
   let n = String.length sc in n >= 10 && String.sub sc (n - 10) 10 = "final=init"
@@ -251,6 +294,13 @@ let () =
           (* results of the processes that were killed are not part of the observation *)
           go (run_acall h shuffle inplace ufirst !autosv m dc s x) r [] in
       Printf.printf "%s RES %s\n" id (String.concat " " (go init (hist @ [ADone fin]) []))
-    | id :: "C" :: _ -> Printf.printf "%s CONC\n" id   (* concurrency stream: oracle only *)
+    | id :: "C" :: _ -> Printf.printf "%s CONC\n" id   (* concurrency stream, killed: oracle only *)
+    | id :: "Q" :: sc :: obs :: _ ->
+      let (blobs, hist, _) = parse_script sc in
+      let h = hfun blobs in
+      let s = run_hist h blobs hist in
+      let fs = conc_finals h blobs s (parse_conc blobs sc) in
+      if obs = "wedged" || List.mem obs fs then Printf.printf "%s QREACH yes\n" id
+      else Printf.printf "%s QREACH no: the model's schedules end in {%s}\n" id (String.concat " | " fs)
     | [] -> ()
     | _ -> Printf.printf "BADLINE %s\n" l)
